@@ -162,8 +162,11 @@ class F80Model:
         bodies = [b for p, b, _ in self.fns.get('from', []) if 'f64' in p and 'f80' not in p]
         if len(bodies) != 1:
             raise Unsupported('From<f64> for f80 not found')
+        t = asm_of(bodies[0])
+        if t is None:
+            raise Unsupported('From<f64> for f80 is not an asm! body')
         m = X87({0: ('f64', x64)})
-        m.run(asm_of(bodies[0])[0])
+        m.run(t[0])
         self.encoded.append('From<f64> for f80')
         k, v = m.out[1]
         if k != 'f80':
@@ -174,8 +177,11 @@ class F80Model:
         bodies = [b for p, b, _ in self.fns.get('from', []) if 'f80' in p]
         if len(bodies) != 1:
             raise Unsupported('From<f80> for f64 not found')
+        t = asm_of(bodies[0])
+        if t is None:
+            raise Unsupported('From<f80> for f64 is not an asm! body (pure-Rust conversions are outside the encoded subset)')
         m = X87({0: ('f80', x80)})
-        m.run(asm_of(bodies[0])[0])
+        m.run(t[0])
         self.encoded.append('From<f80> for f64')
         k, v = m.out[1]
         if k != 'f64':
@@ -259,6 +265,13 @@ class F80Model:
 
     def expr(self, s, a, b, depth):
         s = s.strip()
+        s = re.sub(r'//[^\n]*?(?=f64::from|self|rhs|!|\()', '', s) if s.startswith('//') else s
+        m = re.match(r'^f64::from\(\*?(self|rhs)\) (==|!=|<=|>=|<|>) f64::from\(\*?(self|rhs)\)$', s)
+        if m:
+            x = self.narrow(a if m.group(1) == 'self' else b)
+            y = self.narrow(a if m.group(3) == 'self' else b)
+            op = {'==': z3.fpEQ, '!=': lambda p, q: z3.Not(z3.fpEQ(p, q)), '<': z3.fpLT, '<=': z3.fpLEQ, '>': z3.fpGT, '>=': z3.fpGEQ}[m.group(2)]
+            return op(x, y)
         toks = re.findall(r'&&|\|\||!|\(|\)|\*?(?:self|rhs|other)\.\w+\(&?\*?(?:self|rhs|other)\)|\*?(?:self|rhs|other)\s*(?:<=|>=|<|>|==|!=)\s*\*?(?:self|rhs|other)', s)
         if ''.join(toks).replace(' ', '') != s.replace(' ', ''):
             raise Unsupported('glue expression outside the supported grammar: ' + s)
